@@ -273,6 +273,7 @@ func cmdCheck(args []string) int {
 	vrtPath := fs.String("vrt", "/verif/rt/vrt.go", "vrt runtime source")
 	budget := fs.Duration("budget", 0, "wall budget per entry (default 4m quick, 25m thorough)")
 	noReplay := fs.Bool("noreplay", false, "skip native replay (debug)")
+	replayPath := fs.String("replay", "", "replay this counterexample file natively and exit")
 	verbose := fs.Bool("v", false, "verbose")
 	fs.Parse(args)
 	if v := os.Getenv("VERIF_TIER"); v != "" && !flagSet(fs, "tier") {
@@ -316,6 +317,29 @@ func cmdCheck(args []string) int {
 		return fail(err.Error())
 	}
 	defer os.RemoveAll(ov.tmp)
+	if *replayPath != "" {
+		b, err := os.ReadFile(*replayPath)
+		if err != nil {
+			return fail(err.Error())
+		}
+		var v Violation
+		if err := json.Unmarshal(b, &v); err != nil {
+			return fail(err.Error())
+		}
+		for _, es := range entries {
+			if es.name == v.Harness {
+				status, out := nativeReplay(ov, es, mustAbs(*replayPath), v.Kind == "race", 300*time.Second)
+				fmt.Println(lastLines(out, 30))
+				fmt.Printf("REPLAY property=%s entry=%s label=%q status=%s\n", *prop, es.name, v.Label, status)
+				if status == "reproduced" || status == "reproduced-hang" {
+					fmt.Printf("VIOLATION property=%s replay=%s\n", *prop, *replayPath)
+					return 1
+				}
+				return 0
+			}
+		}
+		return fail("replay: harness entry not found: " + v.Harness)
+	}
 	// load all harness packages at once
 	pat := map[string]bool{}
 	for _, hf := range files {
